@@ -1,7 +1,8 @@
 ----------------------------- MODULE RenderTrace -----------------------------
 (* V leg of C02/C03: recorded parses.  {id, ev: token events (from markdown-it's own token    *)
 (* stream), obs: {nodes: [{k,t,a}], par: [...]}, ids: [{k, ids, refid, backrefs, warned}]}   *)
-(* obs = projection of the doctree returned by the parser (pre-transform), obs2 = after the   *)
+(* obs = projection of the doctree returned by the parser (pre-transform), obsw = the same    *)
+(* with system messages kept as leaves, obs2 = after the (with system messages)                *)
 (* transform pipeline, ids = id/refid bookkeeping of the doctree after the transforms.        *)
 (* M's Step consumes the events; the verdict compares trees and evaluates S's C03 clauses     *)
 (* on the observation itself.                                                                 *)
@@ -31,7 +32,8 @@ WellFormed(NN, PP, post) ==
      /\ \A j \in 1..Len(NN) : NN[j].k = "transition" => KK(PP[j]) \in {"document", "section"}
      /\ \A j \in 1..Len(NN) : NN[j].k = "row" => ToString(Len(Kids(j))) = NN[PP[PP[j]]].a
      /\ \A j \in 1..Len(NN) : NN[j].k = "footnote" => (post => (Kids(j) # <<>> /\ NN[Kids(j)[1]].k = "label"))
-ObsWellFormed == WellFormed(ON, OP, FALSE)
+(* the well-formedness view keeps the system messages as leaves (a section must START with its title) *)
+ObsWellFormed == IF "obsw" \in DOMAIN T THEN WellFormed(T.obsw.nodes, T.obsw.par, FALSE) ELSE WellFormed(ON, OP, FALSE)
 AllIds == UNION {{T.ids[n].ids[m] : m \in 1..Len(T.ids[n].ids)} : n \in 1..Len(T.ids)}
 IdsOK ==
   /\ \A a, b \in 1..Len(T.ids) : a # b => \A m \in 1..Len(T.ids[a].ids) : \A q \in 1..Len(T.ids[b].ids) : T.ids[a].ids[m] # T.ids[b].ids[q]
